@@ -403,6 +403,13 @@ class Runner:
         open(self.p("e.list"), "w").write("\n".join(E) + "\n")
         pd = run_stack([self.model, "decode", self.p("d.list")])
         pe = run_stack([self.model, "encode", self.p("e.list")])
+        for l in pe.stdout.split("\n"):
+            if " wf_table=" in l:
+                self.stats["tables_checked_against_theorem_hypotheses"] = self.stats.get("tables_checked_against_theorem_hypotheses", 0) + 1
+                if "wf_table=1 wf_doc=1" in l:
+                    self.stats["tables_satisfying_theorem_hypotheses"] = self.stats.get("tables_satisfying_theorem_hypotheses", 0) + 1
+                else:
+                    self.stats.setdefault("tables_outside_theorem_hypotheses", []).append(l[:80])
         if pd.returncode != 0 or pe.returncode != 0:
             raise BuildError("model driver failed: %s %s" % (pd.stderr[-500:], pe.stderr[-500:]))
         open(self.p("r.list"), "w").write("\n".join(R) + "\n")
